@@ -22,7 +22,7 @@ MONITORS = "post-mortem audit (independent re-hash, mode bits, State.get vouchin
 REQUIRED_COUNTERS = ["crash_children", "reruns", "killed_at/rename", "killed_at/chmod", "killed_at/copyfile/partial", "killed_at/open-w/partial"]
 EXHAUSTIVE = {"quick": False, "thorough": True}
 
-SCENARIOS = ["stage-transfer", "index-save", "store-to-store", "upload-staging", "add-files", "index-save-sparse", "store-to-store-expanded", "index-save-hardlink", "store-to-store-index"]
+SCENARIOS = ["stage-transfer", "index-save", "store-to-store", "upload-staging", "add-files", "index-save-sparse", "store-to-store-expanded", "index-save-hardlink", "store-to-store-index", "store-to-store-index-jobs"]
 
 
 def run_shard(ctx):
@@ -30,20 +30,25 @@ def run_shard(ctx):
     every = 25 if ctx.tier == "quick" else 1
     jobs = []
     for t in range(per):
-        for sc in SCENARIOS if (ctx.tier != "quick" or t == 0) else SCENARIOS[:7]:
+        for sc in (SCENARIOS if (ctx.tier != "quick" or t == 0) else SCENARIOS[:7]):
+            if ctx.tier == "quick" and sc == "store-to-store-index-jobs":
+                continue  # quick: once, below, at the object-name events only
             jobs.append((sc, t, every))
+    if ctx.tier != "quick":
+        jobs.append(("store-to-store-index-wide", 0, 1))  # > 1000 objects; its kill points are chosen in crash_rounds
     if ctx.tier == "quick":
         # further trees for the scenarios with a link-attempt window, killed only at the events that touch a final object name
         for t in (2, 3):
             for sc in ("upload-staging", "index-save-hardlink", "add-files"):
                 jobs.append((sc, t, 10**6))
+        jobs.append(("store-to-store-index-jobs", 2, 10**6))
     # (scenario, tree) jobs are dealt to groups of shards; the kill points of a job are striped over the shards of its group
     # (every shard of a group rebuilds the same master and recording from the same rng)
     ngroups = 4 if ctx.nshards % 4 == 0 and ctx.nshards >= 8 else 1
     members = [s_ for s_ in range(ctx.nshards) if s_ % ngroups == ctx.shard % ngroups]
     stripe = (members.index(ctx.shard), len(members))
     for ji, (sc, t, ev) in enumerate(jobs):
-        case = SCENARIOS.index(sc) + 100 * t  # stable per (scenario, tree): adding scenarios does not change other cases' data
+        case = (SCENARIOS.index(sc) if sc in SCENARIOS else 90) + 100 * t  # stable per (scenario, tree): adding scenarios does not change other cases' data
         if ctx.replay_case is not None and ctx.replay_case != case:
             continue
         if ctx.replay_case is None and ji % ngroups != ctx.shard % ngroups:
